@@ -50,8 +50,16 @@ def main():
         lib = [f for i, f in enumerate(tb) if i > idx_h and os.path.realpath(f.filename).startswith(repo)]
         traceback.print_exc()
         if not lib:
-            return 2
-        ctx.spec_fail("library-exception:%s:%s" % (type(e).__name__, lib[-1].name),
+            # No Python frame of the library below the harness: either a jitted kernel raised (Numba frames do
+            # not appear in the traceback) or the harness itself is broken by the change.  On the unchanged tree
+            # this never happens (it would be exit 2 and the check would count as broken); on a changed tree it
+            # means the correspondence run could not be completed: reported like a broken correspondence.
+            ctx.mismatches.append({"request": "(run aborted)", "code": "%s: %s" % (type(e).__name__, str(e)[:300]),
+                                   "model": "-", "why": "the correspondence run raised before completion",
+                                   "meta": {"how": "re-run `VERIF_SEED=%d ./check %s --tier %s`" % (seed, pid, a.tier),
+                                            "traceback": traceback.format_exception(type(e), e, e.__traceback__)[-8:]}})
+        else:
+          ctx.spec_fail("library-exception:%s:%s" % (type(e).__name__, lib[-1].name),
                       "the library raised %s: %s on an input of the correspondence run (valid by construction)" % (
                           type(e).__name__, str(e)[:200]),
                       {"how": "re-run `VERIF_SEED=%d ./check %s --tier %s`" % (seed, pid, a.tier),
